@@ -24,6 +24,9 @@ TRUSTED = [
 ]
 
 
+LEAN_TARGETS_THOROUGH = ["QuriVerif.Props.C01Deep"]
+
+
 def gen(ctx: Ctx):
     with ctx.timed("translate"):
         tp = c01gen.class_templates()
@@ -711,9 +714,10 @@ def run(ctx: Ctx, replay=None) -> int:
     ctx.trusted = TRUSTED
     ctx.assumptions = ["documented gate matrices (gates.py) define the semantics", "angles on the π/64 grid for the model correspondence"]
     tp, desc, tab, presets = gen(ctx)
-    ok = ctx.prove(["QuriVerif.Props.C01", "QuriVerif.Driver.All"],
+    deep = [] if ctx.quick() else ["QuriVerif.Props.C01Deep"]
+    ok = ctx.prove(["QuriVerif.Props.C01", "QuriVerif.Driver.All"] + deep,
                    ["QuriVerif.Props.C01", "QuriVerif.Generated.C01Templates", "QuriVerif.Generated.C01Ladders",
-                    "QuriVerif.Generated.C01Tables"])
+                    "QuriVerif.Generated.C01Tables"] + deep)
     if ok:
         names = [f"QV.Props.C01.{n}" for _, n, _ in ctx.count_obligations(["QuriVerif.Props.C01"])]
         ctx.audit(names, ["QuriVerif.Props.C01"])
